@@ -224,7 +224,7 @@ def tlc_validate(trace_path, timeout=1800):
     rejected = re.search(r"TRACE-REJECTED.*", out)
     inv = re.search(r"Invariant (\w+) is violated", out)
     ok = "Model checking completed. No error has been found" in out and not rejected and not inv
-    m = re.search(r"first unmatched event \(1-based line\)\", (\d+)", out)
+    m = re.search(r"first unmatched event \(1-based line\)\",\s*(\d+)", out)
     return {"ok": ok, "states": int(states.group(2)) if states else 0, "rejected": rejected.group(0)[:600] if rejected else None,
             "rejected_line": int(m.group(1)) if m else None,
             "invariant": inv.group(1) if inv else None, "wall_s": round(time.time() - t, 1),
